@@ -7,6 +7,8 @@ import (
 	"fmt"
 	"math/big"
 	"net/http"
+	"strconv"
+	"strings"
 
 	"github.com/thushan/olla/internal/util"
 )
@@ -150,7 +152,13 @@ func (t *Translator) convertToToolUse(toolCall map[string]interface{}) *ContentB
 
 	// openai sends args as json string, we need it as an object
 	var input map[string]interface{}
-	if err := json.Unmarshal([]byte(argsStr), &input); err != nil {
+	dec := json.NewDecoder(strings.NewReader(argsStr))
+	dec.UseNumber()
+	if err := dec.Decode(&input); err == nil {
+		// numbers float64 holds exactly stay float64; the others (ids beyond 2^53, long
+		// decimals) keep their digits instead of being rounded on the way through
+		input, _ = exactNumbers(input).(map[string]interface{})
+	} else {
 		// use empty input if json is bad, don't fail the whole response
 		t.logger.Warn("Failed to parse tool arguments, using empty input",
 			"tool", name,
@@ -167,6 +175,29 @@ func (t *Translator) convertToToolUse(toolCall map[string]interface{}) *ContentB
 		Name:  name,
 		Input: input,
 	}
+}
+
+// exactNumbers replaces every json.Number that float64 represents exactly by that float64
+// and leaves the rest as json.Number, which marshals back digit for digit.
+func exactNumbers(v interface{}) interface{} {
+	switch x := v.(type) {
+	case map[string]interface{}:
+		for k, e := range x {
+			x[k] = exactNumbers(e)
+		}
+		return x
+	case []interface{}:
+		for i, e := range x {
+			x[i] = exactNumbers(e)
+		}
+		return x
+	case json.Number:
+		if f, err := x.Float64(); err == nil && strconv.FormatFloat(f, 'f', -1, 64) == x.String() {
+			return f
+		}
+		return x
+	}
+	return v
 }
 
 // map openai token counts to anthropic names
